@@ -38,6 +38,7 @@ def run(ctx, rep):
     for cfg in ctx.tera_configs():
         crate = ctx.crate(cfg)
         check_rec(crate, rep, cfg)
+        check_counter_writers(crate, rep, cfg)
         check_depth_ast(crate, rep, cfg)
         check_lexprog(crate, rep, cfg)
         check_parseprog(crate, rep, cfg)
@@ -75,6 +76,58 @@ def check_rec(crate, rep, cfg):
     guarded = [i for i in rep.instances[before:] if i.key.endswith(":guarded")]
     rep.floor("R-REC.parse", "guard-dominated recursive call sites on the add path [%s]" % cfg, len(guarded), 5)
     rep.floor("R-REC.parse", "functions in scope [%s]" % cfg, len(scope), 150)
+
+
+def guard_fields_of(body, crate):
+    """fields of self compared against a constant on a switch whose exceeding edge builds an Err (depth-guard shape)"""
+    ef = EdgeFacts(body, crate)
+    tr = Tracer(body)
+    out = set()
+    for sb in sorted(body.reachable):
+        t = body.term(sb)
+        if t["k"] != "switch" or t["op"]["k"] == "const" or t["op"]["pl"]["p"]:
+            continue
+        d = ef.single_def(t["op"]["pl"]["l"])
+        if not (d and d[3]["k"] == "bin" and d[3]["op"] in ("Gt", "Ge", "Lt", "Le")):
+            continue
+        rv = d[3]
+        if (rv["l"]["k"] == "const") == (rv["r"]["k"] == "const"):
+            continue
+        var = rv["r"] if rv["l"]["k"] == "const" else rv["l"]
+        for l in tr.operand(var):
+            if l.kind == "param" and l.detail == 1:
+                fl = [p for p in l.projs if p.startswith(".")]
+                if fl:
+                    out.add(fl[-1][1:])
+    return out
+
+
+def check_counter_writers(crate, rep, cfg):
+    """A depth counter only bounds recursion if nobody else resets it: every writer of a guard/charge counter field is a
+    function that itself tests that counter, or (for a charge counter) a recognised depth-guard function."""
+    pbodies = [b for b in crate.in_files("parsing/parser.rs") if b.kind != "closure" and b.kind != "const" and "Parser" in b.path]
+    guards = {}
+    for b in pbodies:
+        for f in guard_fields_of(b, crate):
+            guards.setdefault(f, set()).add(b.path)
+    counters = {f for f in guards if f.endswith(("_depth", "_dimension", "_brackets")) or f in ("recursion_depth",)}
+    guard_fns = set().union(*[guards[f] for f in counters]) if counters else set()
+    rep.floor("R-REC.parse", "depth counter fields of the parser [%s]" % cfg, len(counters), 5)
+    for f in sorted(counters):
+        for a in field_accesses(crate, "parsing::parser::Parser", f):
+            if a["kind"] == "read" or (a["kind"] == "call" and not a["mut"]) or a["kind"] == "agg-init":
+                continue
+            root = crate.root_of(a["body"]).path
+            own = root in guards[f]
+            # a charge counter (only incremented by a charge function) may be saved/restored by a depth-guard function of another counter
+            via_guard = root in guard_fns
+            ok = own or via_guard
+            key = "R-REC.parse:counter-writer:%s:%s" % (f, root)
+            what = "depth counter Parser.%s is written only by the function(s) that test it (%s) or by another depth-guard function" % (
+                f, sorted(x.rsplit("::", 1)[-1] for x in guards[f]))
+            (rep.ok if ok else rep.bad)("R-REC.parse", key, a["body"].where(a["bb"], a["idx"]), what if ok else what + " — VIOLATED: %s writes/resets it (%s%s): the bound "
+                                        "it enforces no longer holds along recursion paths through %s" % (root.rsplit("::", 1)[-1], a["kind"], ":" + a["callee"].rsplit("::", 1)[-1]
+                                                                                                       if a.get("callee") else "", root.rsplit("::", 1)[-1]))
 
 
 def uncharged_wraps(body, crate, markers, charge_fns):
@@ -425,8 +478,23 @@ def check_delim(crate, rep, cfg):
         elif root == "tera::Tera::set_delimiters":
             ef = EdgeFacts(b, crate)
             # dominated by the Ok (Continue) edge of validate()?
-            vcalls = [bb for bb, t in find_calls(b, ["delimiters::Delimiters::validate"])]
-            ok = bool(vcalls) and all(b.dominates(v, a["bb"]) for v in vcalls) and a["bb"] not in b.reach_from([x for x in error_exit_blocks(b)])
+            vcalls = [(bb, t) for bb, t in find_calls(b, ["delimiters::Delimiters::validate"])]
+            ok = False
+            tr = Tracer(b)
+            for vb, vt in vcalls:
+                # the Continue edge of `validate()?`
+                for sb in sorted(b.reachable):
+                    tt = b.term(sb)
+                    if tt["k"] != "switch" or tt["op"]["k"] == "const" or tt["op"]["pl"]["p"]:
+                        continue
+                    d = ef.single_def(tt["op"]["pl"]["l"])
+                    if d and d[3]["k"] == "discr":
+                        leaves = tr.place(d[3]["pl"])
+                        if leaves and all(l.kind == "call" and l.detail[2] == vb for l in leaves):
+                            for tgt, fl in ef.facts_for_switch(sb).items():
+                                for f in fl:
+                                    if f[0] == "variant" and ("Continue" in f[3] or "Ok" in f[3]) and len(f[3]) == 1 and b.dominates(tgt, a["bb"]) and tgt != sb:
+                                        ok = True
             # the error exit of validate()? must not reach the assignment
             rep.add("C06.DELIM", key, ok, b.where(a["bb"], a["idx"]), "set_delimiters assigns the field only after `delimiters.validate()?` succeeded" + ("" if ok else " — VIOLATED"))
         else:
